@@ -133,3 +133,39 @@ pub fn soup(rng: &mut Rng) -> Vec<u8> {
     }
     b
 }
+
+/// fixed inputs at the edges of the reader's automaton and of UTF-8 validation that random pieces
+/// reach too rarely (bin/mutlex: a model that closes `<!--->` or accepts surrogates was not told
+/// apart from the real reader before these were added)
+pub fn edge_cases() -> Vec<Vec<u8>> {
+    let mut v: Vec<Vec<u8>> = vec![];
+    for c in ["<!-->", "<!--->", "<!---->", "<!----->", "<!-- -->", "<!--->-->", "<!-->-->", "<!-x-->", "<!- -->", "<![CDATA[]]>", "<![CDATA[]>", "<![CDATA]]>",
+              "<![CDATA[]]]>", "<![cdata[x]]>", "<![]]>", "<!DOCTYPE>", "<!DOCTYPE >", "<!DOCTYPE\n\t>", "<!doctype x>", "<!DocType x>", "<!DOCTYPEx>", "<!D>", "<!DOCTYP x>",
+              "<!DOCTYPE a [<!ELEMENT a (b)>]>", "<!DOCTYPE a [<x>]", "<!DOCTYPE a <<>>>", "<?>", "<??>", "<?x>", "<?x?>", "<?xml?>", "<?xml ?>", "<?xmlx?>", "<?x>?>", "<?x ?", "<>", "</>", "< >",
+              "< a>", "<a/ >", "<a / >", "<a//>", "<a/>", "<a b/>", "<a =\"1\">", "<a ==\"1\">", "<a b=\"1\"c=\"2\">", "<a b = '1' >", "<a b='1'/>", "<a b=>", "<a b= >", "<a b='1>", "<a b=\"1'>",
+              "<a b='>'>", "<a b=\">\"/>", "<a b c='1'>", "<a b ='1' b= '2'>", "<a 'b'='1'>", "<a b=''>", "<a\tb='1'\nc='2'\r>", "<a></a >", "<a></a\n>", "<a></ a>", "<a></a b='>'>", "<a></a x>",
+              "<a></A>", "<a></>", "<a/></a>", "x", " ", "x<", "<a>x", "]]>", "-->", "?>"] {
+        v.push(c.as_bytes().to_vec());
+        v.push(format!("<r>{}</r>", c).into_bytes());
+        v.push(format!("{} -->]]>?></r>", c).into_bytes());
+    }
+    let seqs: [&[u8]; 22] = [
+        b"\xED\xA0\x80", b"\xED\xBF\xBF", b"\xED\x9F\xBF", b"\xEE\x80\x80", b"\xE0\x80\x80", b"\xE0\x9F\xBF", b"\xE0\xA0\x80", b"\xC0\x80", b"\xC1\xBF", b"\xC2\x80", b"\xDF\xBF",
+        b"\xF0\x80\x80\x80", b"\xF0\x8F\xBF\xBF", b"\xF0\x90\x80\x80", b"\xF4\x8F\xBF\xBF", b"\xF4\x90\x80\x80", b"\xF5\x80\x80\x80", b"\xEF\xBB\xBF", b"\xEF\xBF\xBD", b"\xE2\x82", b"\xF0\x9F\x98", b"\x80",
+    ];
+    for q in seqs {
+        for (pre, post) in [("", ""), ("<r>", "</r>"), ("<r><", "/></r>"), ("<r ", "='1'/>"), ("<r><![CDATA[", "]]></r>"), ("<r><!--", "--></r>"), ("<r a='", "'/>"), ("<r></r", ">")] {
+            let mut b = pre.as_bytes().to_vec();
+            b.extend_from_slice(q);
+            b.extend_from_slice(post.as_bytes());
+            v.push(b);
+        }
+    }
+    // a byte-order mark: alone, in front of a document, twice, and inside
+    for d in ["", "<a/>", "\u{FEFF}<a/>", "<a>\u{FEFF}</a>", "<a", "</a>", "<!x>"] {
+        let mut b = vec![0xEF, 0xBB, 0xBF];
+        b.extend_from_slice(d.as_bytes());
+        v.push(b);
+    }
+    v
+}
